@@ -9,7 +9,15 @@
 //! fixed-length key space is read through it.
 //! Oracle: the model keeps the full map after every block.
 
-use crate::model::*;
+use crate::{
+    model::*,
+    proc::{
+        self,
+        FAM_HISTORICAL,
+        OpKind,
+        crumb,
+    },
+};
 use fuel_core::{
     database::{
         Database,
@@ -57,7 +65,6 @@ use vcommon::{
     },
     read_replay,
     rng_for,
-    run_shards,
     serde_json::{
         Value as Json,
         json,
@@ -151,7 +158,13 @@ impl Hist<'_> {
     }
 }
 
+/// breadcrumb before a call into the RocksDB-backed database (see `proc`)
+fn mark(op: OpKind, col: u32, dir: u8, a: Option<&[u8]>, b: Option<&[u8]>) {
+    crumb(op, FAM_HISTORICAL, 0, col, dir, a, b);
+}
+
 fn open(dir: &TempDir, policy: StateRewindPolicy, cached: bool) -> Result<Database<OnChain>, String> {
+    mark(OpKind::Open, 0, 0, None, None);
     let mut cfg = DatabaseConfig::config_for_tests();
     if cached {
         // block + row cache as in production configurations
@@ -220,6 +233,8 @@ fn check_iteration(
                 hist.local.evals += 1;
                 hist.local.count("view_iterations");
                 let want = model_iter(&colmap, prefix.as_deref(), start.as_deref(), dir);
+                let dcode = if dir == IterDirection::Forward { 1 } else { 2 };
+                mark(OpKind::ViewIter, col.id(), dcode, prefix.as_deref(), start.as_deref());
                 let got = catch(|| {
                     let mut out = Vec::new();
                     for item in view.iter_store(col, prefix.as_deref(), start.as_deref(), dir) {
@@ -389,6 +404,7 @@ fn check_latest(hist: &mut Hist, db: &Database<OnChain>, ks: &[(Column, Bytes)],
         Err(e) => hist.report.inconclusive(format!("reading metadata failed: {e}")),
     }
     hist.local.evals += 1;
+    mark(OpKind::LatestView, 0, 0, None, None);
     match catch(|| AtomicView::latest_view(db)) {
         Ok(Ok(view)) => {
             match read_cols(&view) {
@@ -442,6 +458,7 @@ fn check_view_reads(
         let e = expected.get(col.id(), &key);
         let len = e.map(|v| v.len()).unwrap_or(0);
         let (offset, buf_len) = read_case(hist.local.evals.wrapping_add(i as u64), len);
+        mark(OpKind::ViewRead, col.id(), 0, Some(&key), None);
         let mut o = match catch(|| do_reads(view, &key, col, offset, buf_len)) {
             Ok(Ok(o)) => o,
             Ok(Err(e)) => return Err(format!("col {:?} key [{}]: {e}", col, hexs(&key))),
@@ -507,6 +524,7 @@ fn params(thorough: bool, steps: Option<usize>) -> Params {
 
 fn run_history(args: &Args, report: &Report, shard: usize, shard_seed: u64, iteration: u64, p: &Params, selftest: u32) {
     let mut rng = rng_for(shard_seed, &[iteration]);
+    proc::crumb_history(iteration);
     let ks = keyspace();
     let policies = [
         StateRewindPolicy::NoRewind,
@@ -566,7 +584,8 @@ fn run_history(args: &Args, report: &Report, shard: usize, shard_seed: u64, iter
     for _ in 0..rng.gen_range(0..3) {
         let c = gen_block(&mut rng, &ks, &base, None);
         hist.ops.push(json!({"genesis_commit": c.to_json()}));
-        match catch(|| Modifiable::commit_changes(&mut db, to_changes(&c.batches[0]))) {
+        mark(OpKind::Commit, 0, 0, None, None);
+            match catch(|| Modifiable::commit_changes(&mut db, to_changes(&c.batches[0]))) {
             Ok(Ok(())) => {
                 base.apply(&c);
                 hist.events.push("G".into());
@@ -586,6 +605,11 @@ fn run_history(args: &Args, report: &Report, shard: usize, shard_seed: u64, iter
     }
 
     for step in 0..p.steps {
+        proc::crumb_step(step);
+        if selftest == 9 && shard == 0 && step == 6 {
+            mark(OpKind::ViewRead, Column::Coins.id(), 0, Some(&[0x7F]), None);
+            std::process::abort();
+        }
         let roll = rng.gen_range(0..100);
         let what: String;
         if roll < 58 || chain.is_empty() {
@@ -594,6 +618,8 @@ fn run_history(args: &Args, report: &Report, shard: usize, shard_seed: u64, iter
             let current = chain.last().map(|b| b.state.clone()).unwrap_or_else(|| base.clone());
             let c = gen_block(&mut rng, &ks, &current, Some(h));
             hist.ops.push(json!({"commit": h, "policy": policy_name(policy), "changes": c.to_json()}));
+            proc::crumb_aux(h);
+            mark(OpKind::Commit, 0, 0, None, None);
             match catch(|| Modifiable::commit_changes(&mut db, to_changes(&c.batches[0]))) {
                 Ok(Ok(())) => {}
                 Ok(Err(e)) => {
@@ -648,6 +674,8 @@ fn run_history(args: &Args, report: &Report, shard: usize, shard_seed: u64, iter
             let top_retained = chain.last().unwrap().history_retained;
             let top = chain.last().unwrap().height;
             hist.local.evals += 1;
+            proc::crumb_aux(top);
+            mark(OpKind::Rollback, 0, 0, None, None);
             match catch(|| db.rollback_last_block()) {
                 Ok(Ok(())) => {
                     chain.pop();
@@ -722,6 +750,8 @@ fn run_history(args: &Args, report: &Report, shard: usize, shard_seed: u64, iter
             // ---- take a view and hold it over the following steps
             if let Some(b) = chain.get(rng.gen_range(0..chain.len().max(1))) {
                 let h = b.height;
+                proc::crumb_aux(h);
+                mark(OpKind::ViewAt, 0, 0, None, None);
                 if let Ok(Ok(v)) = catch(|| db.view_at(&BlockHeight::from(h as u32))) {
                     let contiguous = chain.iter().filter(|x| x.height > h).all(|x| x.history_retained);
                     if contiguous && held.len() < 4 {
@@ -740,6 +770,8 @@ fn run_history(args: &Args, report: &Report, shard: usize, shard_seed: u64, iter
             // an iterable latest_view, both held over the following steps
             if let Some(l) = chain.last() {
                 if held.len() < 5 {
+                    proc::crumb_aux(l.height);
+                    mark(OpKind::ViewAt, 0, 0, None, None);
                     if let Ok(Ok(v)) = catch(|| db.view_at(&BlockHeight::from(l.height as u32))) {
                         held.push(Held {
                             height: l.height,
@@ -752,6 +784,7 @@ fn run_history(args: &Args, report: &Report, shard: usize, shard_seed: u64, iter
                     }
                 }
                 if held_latest.len() < 2 {
+                    mark(OpKind::LatestView, 0, 0, None, None);
                     if let Ok(Ok(v)) = catch(|| AtomicView::latest_view(&db)) {
                         held_latest.push((Box::new(v), l.state.clone()));
                         hist.local.count("held_latest_views.taken");
@@ -776,6 +809,8 @@ fn run_history(args: &Args, report: &Report, shard: usize, shard_seed: u64, iter
                 .last()
                 .map(|l| DATA_COLS.iter().any(|c| l.state.col(c.id()) != b.state.col(c.id())))
                 .unwrap_or(false);
+            proc::crumb_aux(h);
+            mark(OpKind::ViewAt, 0, 0, None, None);
             match catch(|| db.view_at(&BlockHeight::from(h as u32))) {
                 Ok(Ok(view)) => {
                     hist.local.count(if Some(h) == latest {
@@ -886,6 +921,8 @@ fn run_history(args: &Args, report: &Report, shard: usize, shard_seed: u64, iter
         // heights that were never committed (or rolled back): only observed
         if let Some(l) = latest {
             let probe = l + 1;
+            proc::crumb_aux(probe);
+            mark(OpKind::ViewAt, 0, 0, None, None);
             match catch(|| db.view_at(&BlockHeight::from(probe as u32))) {
                 Ok(Ok(_)) => hist.local.count("info.view_at_future_height.ok"),
                 Ok(Err(_)) => hist.local.count("info.view_at_future_height.error"),
@@ -976,18 +1013,23 @@ pub fn run(args: &Args, report: &Report) {
         .get("per-shard")
         .and_then(|s| s.parse().ok())
         .unwrap_or(args.by_tier(3, 16));
-    let args2 = args.clone();
-    let report2 = report.clone();
-    let shards: usize = args.extra.get("shards").and_then(|s| s.parse().ok()).unwrap_or(16);
-    run_shards(report, args, shards, move |shard, shard_seed| {
+    let shard = proc::child_shard(args).unwrap_or(0);
+    proc::run_child_shard(report, args, shard, |shard, shard_seed| {
         for it in 0..per_shard {
-            run_history(&args2, &report2, shard, shard_seed, it, &p, selftest);
+            run_history(args, report, shard, shard_seed, it, &p, selftest);
         }
     });
     finish(args, report, selftest, false);
 }
 
-fn finish(args: &Args, report: &Report, selftest: u32, replay: bool) {
+/// child: writes the partial result; parent: thresholds, self-test check and
+/// the merged result
+pub fn finish(args: &Args, report: &Report, selftest: u32, replay: bool) {
+    if proc::child_shard(args).is_some() {
+        proc::child_finish(args);
+        report.finish(args, "exploration", "", false, &[]);
+        return;
+    }
     if !replay {
         let t = |q: u64, th: u64| args.by_tier(q, th);
         report.require("histories", t(24, 200));
@@ -1017,6 +1059,7 @@ fn finish(args: &Args, report: &Report, selftest: u32, replay: bool) {
             "rollback failure is a violation only when the latest block was committed under a rewind policy and no later commit's RewindRange window excluded it",
             "restarts are clean shutdowns (drop + reopen); crash points inside a commit are not injected",
             "block commits are single change sets (lists are C11's subject)",
+            "the histories run in child processes (one per shard); a child killed by SIGSEGV/SIGABRT/SIGBUS/SIGILL/SIGFPE is a violation attributed by the breadcrumb written before every database call, any other abnormal child exit is inconclusive",
             "read_zerofill's returned count is compared with the value length (what both the default and the RocksDb implementation return), the buffers of failed reads are not compared",
         ],
     );
